@@ -39,6 +39,7 @@ type NetOp struct {
 	Mirror     bool      `json:"mirror,omitempty"`      // push --mirror
 	Form       string    `json:"form,omitempty"`        // merge: how BRANCH is spelled: "", heads, refs, short (last path segment), peel (B^), tilde0 (B~0)
 	SQLFail    int       `json:"sql_fail,omitempty"`    // the n-th SQL statement issued during the operation (any node's ref store) fails
+	DstForm    string    `json:"dst_form,omitempty"`    // push (single-branch form): how the destination is spelled: "" (refs/heads/B), short (B), heads (heads/B), nodst (no destination), lastseg (last path segment of B)
 	Upstream   bool      `json:"upstream,omitempty"`    // push / pull: --set-upstream (makes the branch eligible for pullall / pushall)
 	ReqFault   *NetFault `json:"req_fault,omitempty"`   // a network fault addressed relative to this operation: its At-th request
 	StoreFault *Fault    `json:"store_fault,omitempty"` // an object-store operation fails during the operation ...
@@ -256,6 +257,10 @@ func genNetPlan(r *Rand, tier string, focus string, faults bool) NetPlan {
 			}
 		case x < 80:
 			op = NetOp{Node: node, Op: "push", Branch: b, Force: r.Chance(0.15), Plus: r.Chance(0.1), Upstream: r.Chance(0.3)}
+			if rd := r.Sub(fmt.Sprintf("dstform-%d", len(p.Ops))); rd.Chance(0.3) {
+				// a sub-stream: the plans of earlier versions stay what they were
+				op.DstForm = Pick(rd, []string{"short", "heads", "nodst", "lastseg"})
+			}
 			switch r.Intn(6) {
 			case 0:
 				op.Mirror = true
@@ -918,6 +923,23 @@ func execNet(t *testing.T, raw json.RawMessage, res *Result, focus string) {
 				return
 			}
 			spec := fmt.Sprintf("refs/heads/%s:refs/heads/%s", op.Branch, op.Branch)
+			switch op.DstForm {
+			case "":
+			case "short":
+				spec = fmt.Sprintf("refs/heads/%s:%s", op.Branch, op.Branch)
+			case "heads":
+				spec = fmt.Sprintf("refs/heads/%s:heads/%s", op.Branch, op.Branch)
+			case "nodst":
+				spec = "refs/heads/" + op.Branch
+			case "lastseg":
+				spec = fmt.Sprintf("refs/heads/%s:%s", op.Branch, op.Branch[strings.LastIndexByte(op.Branch, '/')+1:])
+			default:
+				res.Invalid("dst_form")
+				return
+			}
+			if op.DstForm != "" && !op.Mirror && len(op.Specs) == 0 {
+				res.probe("push_destination_"+op.DstForm, 1)
+			}
 			if op.Plus {
 				spec = "+" + spec
 			}
